@@ -192,6 +192,9 @@ class Network:
                     # This would be a programmer "error", but we will allow it.
                     self.verified_peers.add(peer)
                     self.verified_by_public_key_bin[peer.public_key.key_to_bin()] = peer
+                    # Services may have been discovered before verification: drop the (now incomplete) cached lists.
+                    for service in self.services_per_peer.get(peer.public_key.key_to_bin(), ()):
+                        self.reverse_service_lookup.pop(service, None)
                     list(map(methodcaller("on_peer_added", peer), self.peer_observers))
             elif all(address not in self.blacklist for address in peer.addresses.values()):
                 for address in peer.addresses.values():
@@ -200,6 +203,9 @@ class Network:
                 if peer not in self.verified_peers:
                     self.verified_peers.add(peer)
                     self.verified_by_public_key_bin[peer.public_key.key_to_bin()] = peer
+                    # Services may have been discovered before verification: drop the (now incomplete) cached lists.
+                    for service in self.services_per_peer.get(peer.public_key.key_to_bin(), ()):
+                        self.reverse_service_lookup.pop(service, None)
                     list(map(methodcaller("on_peer_added", peer), self.peer_observers))
 
     def register_service_provider(self, service_id: Service, overlay: Overlay) -> None:
